@@ -333,13 +333,13 @@ OPEN — carried by K/O only (observed by harness/src/bin/c17.rs, not proved):
 * (moved to theorems, wave 3 — `Props/C17Concrete.lean`) that the checker / printers are of the shape `diagnostics chk
   view defs` / `decls` is no longer "by reading": permutation invariance is proved of the CONCRETE executable models
   `CheckTs.checkSchema`, `CheckOp.checkOp` (schema side and document side), `SchemaDecls.schemaFile`,
-  `OpTypes.implTree`/`toTs`/`opDecls`, with kernel-checked witnesses for every side condition. What is still carried
+  `ResolverDecls.resolversFile`, `OpTypes.implTree`/`toTs`/`opDecls`, with kernel-checked witnesses for every side condition. What is still carried
   by K/O only: that these models compute what the real code computes (K streams of C03/C04/C05 for the checkers,
   C09/C10 for the schema declaration file, C01/C02 for the operation types — other properties' harnesses), and the
   consequence on the real CLI (verdict and per-alias denotation invariant under shuffling definitions inside and
   across files, and renaming files: O stream of harness/src/bin/c17.rs). Not modelled, hence not proved: the
-  resolvers file and the server schema file under permutation (observed), `additional_info` of diagnostics and
-  the rendered message text (the models carry kind + main position).
+  server schema file under permutation (observed), `additional_info` of diagnostics and the rendered message text
+  (the models carry kind + main position).
 * the site list is complete only as far as the syntactic scan sees (name-based; documented in translate/hash_sites.py).
 -/
 
